@@ -1,5 +1,6 @@
 import Vore.Lemmas.Window
 import Vore.Lemmas.Replace
+import Vore.Lemmas.Ds
 /-!
 # C04 — all/skip/take/top/last select windows of one and the same match sequence
 
@@ -58,9 +59,38 @@ example : findMatches 10 100 [.lit false false [97, 97]] (Clause.skipTake 1 1).a
     (findMatches 10 100 [.lit false false [97, 97]] Clause.all.amount [97, 97, 97, 97]).map
       (fun r => match r with | .ok A => .ok ((A.drop 1).take 1) | x => x) := by rfl
 
+
+/-! ## `last n` through the queue as written (libvore/ds/queue.go)
+
+The scan model keeps the `last n` window with `limitLast`; the engine keeps it in a `ds.Queue`
+(`matches.Push(m); if last != 0 { matches.Limit(last) }`, `Limit` = `for Size() > uint64(n) { Pop() }`).
+`Model/Ds.lean` is that code as written; these theorems tie it to the list reading. -/
+
+/-- one step of the engine's window = one step of the model's -/
+theorem C04_queue_step (q : Ds.Queue Match) (m : Match) (last : Nat) :
+    (if last != 0 then ((q.push m).limit (last : Int)).store else (q.push m).store) = limitLast last (q.store ++ [m]) :=
+  Ds.push_limit_is_limitLast q m last
+
+/-- **every history**: after pushing any sequence of matches with `Limit(n)` after each push (n ≥ 1) the queue holds
+exactly the final `n` of them, unchanged and in order — `Spec.select (.last n)` of the sequence -/
+theorem C04_queue_last_n (n : Nat) (hn : 1 ≤ n) (ms : List Match) :
+    (ms.foldl (fun q m => (q.push m).limit (n : Int)) (Ds.Queue.new : Ds.Queue Match)).contents = ms.drop (ms.length - n) :=
+  Ds.push_limit_history n hn ms
+
+/-- `Limit` never removes more than asked, whatever the amount (a negative one converts to a huge unsigned bound) -/
+theorem C04_queue_limit (q : Ds.Queue Match) (amount : Int) :
+    (q.limit amount).store = q.store.drop (q.store.length - Ds.toU64 amount) :=
+  Ds.limit_store q amount
+
+/-- non-vacuity: 1 2 3 4 through `Limit(2)` after every push leaves 3 4 -/
+example : ([1, 2, 3, 4].foldl (fun q m => (q.push m).limit 2) (Ds.Queue.new : Ds.Queue Nat)).contents = [3, 4] := by decide
+
 #print axioms C04_clause_window
 #print axioms C04_window
 #print axioms C04_window_amount
 #print axioms C04_window_replace
+#print axioms C04_queue_step
+#print axioms C04_queue_last_n
+#print axioms C04_queue_limit
 
 end Vore
